@@ -243,6 +243,30 @@ theorem fileLoop_fed {σ : Type} (s : Sink σ) :
         simp only [Option.some.injEq] at he
         exact ⟨hk', he⟩
 
+/-- file rows that map none of the requested columns are passed over without any callback and
+    without any look at the deadline (row_store.go: `if !includesAtLeastOneColumn { continue }`;
+    the only guard of the scan is `guard.ProceedAfter(onValue(..))`, after a delivered row) -/
+theorem fileLoop_all_skipped {σ : Type} (s : Sink σ) (st : σ) :
+    ∀ (file : List (Row × Bool)) (now : Nat), (∀ x, x ∈ file → x.2 = false) → fileLoop true s st now file = (st, 0, none)
+  | [], _, _ => rfl
+  | (row, incl) :: rest, now, h => by
+    have hi : incl = false := h (row, incl) (by simp)
+    subst hi
+    unfold fileLoop
+    simp only [Bool.false_eq_true, if_false, if_true]
+    exact fileLoop_all_skipped s st rest now (fun x hx => h x (by simp [hx]))
+
+theorem fileStore_all_skipped {σ : Type} (cfg : Cfg) (h15 : cfg.d15 = true) (t : Table) (s : Sink σ) (st : σ) (now : Nat)
+    (hf : ∀ x, x ∈ t.file → x.2 = false) (hm : t.includeMem = false ∨ t.mem = []) :
+    fileStoreIterate cfg t s st now = (st, 0, none) := by
+  unfold fileStoreIterate
+  rw [h15, fileLoop_all_skipped s st t.file now hf]
+  rcases hm with h | h
+  · simp [h]
+  · by_cases hi : t.includeMem = true
+    · simp [hi, h, feed, Reply.proceed]
+    · simp [hi]
+
 theorem Table.rows_eq (t : Table) : t.rows = fileRows t.file ++ (if t.includeMem then t.mem else []) := rfl
 
 /-- fileStore.iterate with the fixes: the callback was fed a prefix of the table's rows, the
